@@ -88,7 +88,7 @@ func candsOf(r *gRun, key string) (*slotCands, bool) {
 	if i := strings.Index(rawName, ","); i >= 0 {
 		rawName = rawName[:i]
 	}
-	sc.required = !strings.Contains(tag, ",required=false")
+	sc.required = !tagOptional(tag)
 	tgt, _ := strconv.Atoi(target)
 	if qs, ok := p.Args().Find(component_definition.ArgQualifier); ok {
 		sc.hasQual, sc.quals = true, qs
